@@ -118,6 +118,22 @@ func (ec *EvalCtx) lookupName(n string) (Val, bool) {
 		if v, ok := ec.fr.localByName(n, ec); ok {
 			return v, true
 		}
+		// inside an inlined callee (e.g. a function literal): names of the functions it is inlined into
+		for pf := ec.fr.parentFrame; pf != nil; pf = pf.parentFrame {
+			if v, ok := pf.names[n]; ok {
+				return v, true
+			}
+			if v, ok := pf.params[n]; ok {
+				return v, true
+			}
+			pc := *ec
+			pc.fr = pf
+			pc.loop = nil
+			pc.at = nil
+			if v, ok := pf.localByName(n, &pc); ok {
+				return v, true
+			}
+		}
 	}
 	if c, ok := ec.ex.S.Consts[n]; ok {
 		return ec.eval(c.E), true
@@ -193,6 +209,9 @@ func (fr *Frame) localByName(n string, ec *EvalCtx) (Val, bool) {
 			if a, ok := in.(*ssa.Alloc); ok && a.Comment == n {
 				if av, ok := fr.vals[a]; ok {
 					et := a.Type().Underlying().(*types.Pointer).Elem()
+					if iv, ok := ex.immCells[av.T]; ok {
+						return Val{T: iv.T, S: iv.S, G: et}, true // write-once cell
+					}
 					return Val{T: ex.load(ec.mem, et, av.T), S: ex.D.sortOf(et), G: et}, true
 				}
 			}
@@ -704,6 +723,9 @@ func (ec *EvalCtx) evalQuant(x *EQuant) Val {
 			if ec.fr != nil && cands == nil {
 				cands = ec.fr.witnessCandidates()
 			}
+			if len(cands) == 0 && ec.at != nil {
+				cands = []string{"0", "1", "2"} // call-site clauses: positions in short argument lists
+			}
 			if len(cands) <= 3 {
 				for _, c := range cands {
 					ec.bound = append(ec.bound, map[string]Val{x.Vars[0].Name: {T: c, S: SInt}})
@@ -873,6 +895,17 @@ func (ec *EvalCtx) evalCall(x *ECall) Val {
 	case "boxstr": // the interface value holding a Go string
 		v := ec.coerce(ec.eval(x.Args[0]), SStr)
 		return Val{T: fmt.Sprintf("(mkI %d %s)", ex.D.tagOf(types.Typ[types.String]), ex.D.box(SStr, v.T)), S: SIface}
+	case "boxnamed": // the interface value holding v converted to the named (non-pointer) type T
+		lit, ok := x.Args[0].(*ELit)
+		if !ok || lit.Kind != "str" {
+			ec.fail("boxnamed needs a type name literal")
+		}
+		t := ex.resolveType(lit.Val)
+		if t == nil {
+			ec.fail("boxnamed: unknown type %q", lit.Val)
+		}
+		v := ec.coerce(ec.eval(x.Args[1]), ex.D.sortOf(t))
+		return Val{T: ex.makeIface(t, v.T), S: SIface}
 	case "isstr":
 		v := ec.eval(x.Args[0])
 		return Val{T: fmt.Sprintf("(= (itag %s) %d)", v.T, ex.D.tagOf(types.Typ[types.String])), S: SBool}
